@@ -282,3 +282,63 @@ CHECKS["C18"] = dict(
         technique="exhaustive enumeration of all short inputs on the implementation against an independent classifier",
         ref="DESIGN.md 3/C18"),
 )
+
+
+def _mc_cov(rule, extra=None):
+    def f(stats, tier):
+        c = dict(states=int(stats.get("states", 0)), transitions=int(stats.get("transitions", 0)),
+                 traces_validated_against_impl=int(stats.get("transitions", 0)),
+                 evaluations=int(stats.get("evaluations", 0)), distinct_nontrivial=int(stats.get("states", 0)), rule=rule)
+        if extra:
+            c.update(extra(stats, tier))
+        return c
+    return f
+
+
+CHECKS["C14"] = dict(
+    level="model_checking",
+    jobs=lambda tier: [dict(name="c14", variant="o2", sources=["e_c14.c"] + RT, flags=["-DVH_MALLOC_SEAM"])],
+    coverage=_mc_cov("explicit-state BFS on the real crypt_ra/crypt_gensalt_ra under the allocator seam: 17 start states of (*data,*size) "
+                     "(NULL with size 0/stale/negative; exact, larger; 1-, 100-, sizeof-1-byte blocks with true/zero/negative recorded size) x "
+                     "alphabet of 12 operations (3 succeeding hashes, bad character, unknown prefix, 600-byte phrase, NULL setting, caller "
+                     "free+reset, gensalt_ra ok/fail, and crypt_ra / gensalt_ra while the allocator fails); state = (real block size, recorded size, block contents, live-block count), "
+                     "re-materialised by replaying the shortest history; depth cap 6, closure reported per start state; "
+                     "every transition is an execution of the implementation checked against the protocol model, and every reached state ends "
+                     "with the caller's single free (ledger must be empty)",
+                     lambda s, t: dict(start_states_closed=int(s.get("start_states_closed", 0)),
+                                       start_states_depth_capped=int(s.get("start_states_depth_capped", 0)), max_depth=int(s.get("max_depth", 0)))),
+    assumptions=["recorded sizes larger than the real block are caller contract violations and are not used as start states",
+                 "realloc in the seam always moves the block and scribbles the old one, so stale-pointer use is visible"],
+    nonvacuous=lambda s, t: None if s.get("states", 0) > 50 and s.get("transitions", 0) > 500 else "state space too small",
+    manifest=dict(
+        text="Explicit-state model checking directly on the implementation: breadth-first search over call histories on a shared (*data,*size) "
+             "pair from 17 start states, each transition executing the real crypt_ra/crypt_gensalt_ra under an interposed allocator with a block "
+             "ledger; invariants: *data unchanged or a live block with sizeof <= *size <= real size, erased before growth, zero after growth, "
+             "result inside the block, no leak and no double free when the caller frees once.",
+        note="allocator seam (malloc/realloc/free defined in the harness over __libc_*) is the observation point; search is bounded by depth 4/6 where the state space does not close earlier.",
+        technique="explicit-state BFS over operation histories on the real code with state hashing and replay-based state re-materialisation",
+        ref="DESIGN.md 3/C14"),
+)
+
+CHECKS["C15"] = dict(
+    level="fault_enumeration",
+    jobs=lambda tier: [dict(name="c15", variant="o2", sources=["e_c15.c"] + RT, flags=["-DVH_MALLOC_SEAM"])],
+    coverage=_cov("corpus: crypt_rn, crypt_r, crypt (static), crypt_ra from (NULL,0)/100-byte block/adequate block, for all 16 methods, plus "
+                  "yescrypt/gost-yescrypt/scrypt at 32 MiB (MAP_HUGETLB attempt and fallback), crypt_gensalt_ra, crypt_gensalt_rn and "
+                  "crypt_gensalt with rbytes==NULL for 16 prefixes; each call is run once to count its malloc/realloc/free/mmap/munmap "
+                  "requests, then once per failing position and once per ordered pair of positions, each followed by the same call without "
+                  "faults on the same objects; distinct_nontrivial = calls of the corpus that issue at least one request (distinct request logs)",
+                  lambda s, t: dict(single_faults=int(s.get("single_faults", 0)), fault_pairs=int(s.get("fault_pairs", 0)),
+                                    follow_up_calls=int(s.get("follow_up_calls", 0)), max_requests_per_call=int(s.get("max_requests_per_call", 0)))),
+    assumptions=["a fault absorbed by a documented fallback (huge-page attempt) may still yield the correct hash; any other hash is a violation",
+                 "a mapping whose own munmap was failed by the injector is allowed to survive"],
+    nonvacuous=lambda s, t: None if s.get("single_faults", 0) > 100 and s.get("fault_pairs", 0) > 50 else "too few faults injected",
+    manifest=dict(
+        text="Exhaustive fault enumeration on the real code: for every API call of a corpus covering all methods and all library-owned allocation "
+             "sites, every single failing allocator/mapping request and every ordered pair of failing requests is injected through link-time "
+             "interposed malloc/realloc/free/mmap/munmap with a block ledger; oracle: documented failure or the exact unfaulted result, errno class, "
+             "nothing library-made left live, scratch erased, and an identical follow-up call.",
+        note="allocator/mapping seam defined in the harness; huge pages are reported unavailable as in the sandbox kernel; corpus phrases fixed.",
+        technique="exhaustive single- and pair-fault enumeration over the allocator/mapping request sequence of each call on the real code",
+        ref="DESIGN.md 3/C15"),
+)
